@@ -253,10 +253,20 @@ def f64_spelling(it, cs):
     return None
 
 
+def check_radix(it, radix, msg):
+    """std's integer parsers and num-bigint assert 2 <= radix <= 36 (a panic, not an Err)"""
+    from .values import Panic
+    if is_sym(radix):
+        if it.branch(z3.Or(z3.ULT(radix, 2), z3.UGT(radix, 36))): raise Panic(msg)
+    elif not (2 <= radix <= 36):
+        raise Panic(msg)
+
+
 def parse_int(it, cs, radix, ty):
     """<int>::from_str_radix -> Result<int, ParseIntError>"""
     w, sg = INT_TYPES[ty]
     err = lambda k: mk_err(Agg('ParseIntError', None, [k]))
+    check_radix(it, radix, 'from_str_radix: radix must lie in the range `[2, 36]`')
     if not cs: return err('Empty')
     neg = False
     if is_char(it, cs[0][0], '+'):
@@ -284,6 +294,7 @@ def parse_int(it, cs, radix, ty):
 def parse_big(it, cs, radix):
     """BigInt::from_str_radix: '-'? '+'? digit (digit | '_')*  -> Result<Big, ParseBigIntError>"""
     err = lambda: mk_err(Agg('ParseBigIntError', None, ['invalid']))
+    check_radix(it, radix, 'The radix must be within 2...36')
     neg = False
     if cs and is_char(it, cs[0][0], '-'):
         neg = True
